@@ -113,6 +113,21 @@ class CopyState:
         self.fr = self.m.ref(U.FContainer(g), "f")
 
 
+def make_task(xd, w, st, t):
+    """the task that defines t in st, built over world w (its refs and its containers)"""
+    dsc = st.defs[t]
+    if getattr(st, "kinds", {}).get(t) == "fun":
+        # a FunctionTask identified by the ref of its target: t = g(p, 0)
+        p = dsc[1][1]
+        g, d = st.g, w.d
+
+        def action(d=d, t=t, p=p):
+            U.setraw(d, t, g(U.getval(d, p), 0))
+        tref = U.getref(w.r, t)
+        return xd.tasks.FunctionTask(tref, action, set(tref._get_dependencies()), set(U.getref(w.r, p)._get_dependencies()))
+    return xd.tasks.ExprTask(U.getref(w.r, t), U.build(dsc, w.r, w.fr))
+
+
 def compare(ex, st, order, step, last=True, fu_locs=U.ALL_LOCS):
     """Compare st.m with a fresh manager holding the surviving definitions."""
     xd = st.xd
@@ -120,7 +135,7 @@ def compare(ex, st, order, step, last=True, fu_locs=U.ALL_LOCS):
     fresh = CopyState(xd, st.d, st.g)
     ExprTask = xd.tasks.ExprTask
     for t in order:
-        fresh.m.register(ExprTask(U.getref(fresh.r, t), U.build(st.defs[t], fresh.r, fresh.fr)))
+        fresh.m.register(make_task(xd, fresh, st, t))
     fresh.m.cleanup()
     hist = list(st.hist)
     # 1. verify() must hold
@@ -176,7 +191,7 @@ def followup(ex, st, order, L, hist, refreshed):
                 w.m.refresh()
         else:
             for t in order:
-                w.m.register(ExprTask(U.getref(w.r, t), U.build(st.defs[t], w.r, w.fr)))
+                w.m.register(make_task(xd, w, st, t))
         worlds.append((kind, w))
     outs = []
     for kind, w in worlds:
@@ -237,6 +252,7 @@ class HState(c01.State):
         self.r = self.m.ref(self.d, "d")
         self.fr = self.m.ref(U.FContainer(self.g), "f")
         self.defs = {}
+        self.kinds = {}
         self.order = []
         self.last = {L: U.getval(self.d, L) for L in U.ALL_LOCS}
         self.hist = []
@@ -256,6 +272,16 @@ class HState(c01.State):
     def apply(self, op):
         self.oplog.append(op)
         kind = op[0]
+        if kind == "regfun":
+            # a function task registered under the ref of its target (t = g(p, 0)); registering does not run it
+            t, p = op[1], op[2]
+            self.defs[t] = ("call", ("loc", p), ("const", 0))
+            self.kinds[t] = "fun"
+            self.m.register(make_task(self.xd, self, self, t))
+            self._touch(t)
+            self.hist.append(f"register(FunctionTask({t} = g({p}, 0)) under the ref of {t})")
+            self.ex.notes["function_task_by_ref"] = self.ex.notes.get("function_task_by_ref", 0) + 1
+            return
         if kind == "loadn":
             entries = []
             for t, dsc in op[1]:
@@ -264,6 +290,7 @@ class HState(c01.State):
             self.m.load(entries)
             for t, dsc in op[1]:
                 self.defs[t] = dsc
+                self.kinds.pop(t, None)
                 self._touch(t)
             self.ex.notes["load_many"] = self.ex.notes.get("load_many", 0) + 1
             return
@@ -276,6 +303,7 @@ class HState(c01.State):
                 self.m.load([(str(ref), str(expr))], overwrite=op[3])
                 if op[3] or t not in self.defs:
                     self.defs[t] = dsc
+                    self.kinds.pop(t, None)
                     self._touch(t)
                 self.ex.notes["load"] = self.ex.notes.get("load", 0) + 1
             else:
@@ -286,6 +314,8 @@ class HState(c01.State):
         before = set(self.defs)
         c01.State.apply(self, op)
         t = op[1]
+        if op[0] in ("val", "expr", "unreg", "same"):
+            self.kinds.pop(t, None)
         if t in self.defs and op[0] in ("expr", "iadd", "isubref"):
             self._touch(t)
         for k in list(self.order):
@@ -312,6 +342,9 @@ def run_case(ex, case):
         st.apply(c01._tup(op))
     for k in range(case["K"]):
         ops = list_ops(st.defs, locs)
+        if st.kinds:
+            # in-place operators need an expression to extend; a function task has none
+            ops = [o for o in ops if not (o[0] in ("iadd", "isubref") and o[1] in st.kinds)]
         i = case["first"] if k == 0 else ex.choose(len(ops))
         if i >= len(ops):
             return
@@ -341,6 +374,9 @@ PREFIXES = [
     [["expr", "b", ["add", ["loc", "l1"], ["const", 1]]], ["expr", "l", ["pair", ["loc", "a"]]]],
     [["expr", "l", ["pair", ["loc", "c"]]], ["expr", "a", ["lidx", ["mod", ["abs", ["loc", "b"]], ["const", 2]]]]],
     [["expr", "a", ["pidx", ["mul", ["loc", "c"], ["const", 2]], 1]]],
+    # tasks of another kind identified by a ref: a FunctionTask registered under its target's ref, a reader of it
+    [["regfun", "c", "a"], ["expr", "l0", ["add", ["loc", "c"], ["const", 1]]]],
+    [["regfun", "l1", "c"]],
 ]
 
 
